@@ -90,22 +90,40 @@ typedef struct { uint64_t in[5]; uint64_t out[5]; unsigned round; } ls_rec_t;
 unsigned ls_n_impl = 0, ls_n_spec = 0;
 static uint64_t ls_y[5];   /* static scratch: one object, not one per call */
 
-void ascon_permute(ascon_state_t *state, uint8_t first_round)
+/* ls_replay_mode != 0: the library-side call is the *replaying* side (used when
+ * two runs of the implementation are compared with each other, C07) */
+int ls_replay_mode = 0;
+
+/* implementation-side permutation on canonical words: record + fresh output,
+ * or replay when ls_replay_mode is set */
+void ls_impl_P(uint64_t x[5], unsigned first_round)
 {
     unsigned k = ls_n_impl;
     ls_rec_t *r;
+    if (ls_replay_mode) {
+        spec_P(x, first_round);
+        return;
+    }
     CHECK(k < LS_MAX, "lockstep: transcript capacity LS_MAX large enough");
     ASSUME(k < LS_MAX);
     ls_n_impl = k + 1;
     r = ls_get(k);
-    ls_to_canon(state, r->in);
+    r->in[0] = x[0]; r->in[1] = x[1]; r->in[2] = x[2]; r->in[3] = x[3]; r->in[4] = x[4];
     r->round = first_round;
-    ls_y[0] = nondet_u64(); ls_y[1] = nondet_u64(); ls_y[2] = nondet_u64();
-    ls_y[3] = nondet_u64(); ls_y[4] = nondet_u64();
-    r->out[0] = ls_y[0]; r->out[1] = ls_y[1]; r->out[2] = ls_y[2];
-    r->out[3] = ls_y[3]; r->out[4] = ls_y[4];
+    x[0] = nondet_u64(); x[1] = nondet_u64(); x[2] = nondet_u64();
+    x[3] = nondet_u64(); x[4] = nondet_u64();
+    r->out[0] = x[0]; r->out[1] = x[1]; r->out[2] = x[2];
+    r->out[3] = x[3]; r->out[4] = x[4];
+}
+
+#ifndef LS_NO_PLAIN_STUB
+void ascon_permute(ascon_state_t *state, uint8_t first_round)
+{
+    ls_to_canon(state, ls_y);
+    ls_impl_P(ls_y, first_round);
     ls_from_canon(state, ls_y);
 }
+#endif
 
 void spec_P(uint64_t x[5], unsigned first_round)
 {
